@@ -38,6 +38,7 @@ class Scheduler:
         self.max_depth: dict[str, int] = {}
         self.local = threading.local()
         self.uncontrolled: list[str] = []
+        self.now = 0.0                       # virtual time: advances only when no thread is enabled
 
     # ---- thread bookkeeping
     def register(self, name: str) -> int:
@@ -61,12 +62,13 @@ class Scheduler:
             raise Abort()
         enabled = self.enabled()
         if not enabled:
-            timed = [tid for tid, t in self.threads.items() if t["state"] == "T"]
+            timed = [tid for tid, t in self.threads.items() if t["state"] in ("T", "Z")]
             if timed:
-                # virtual time advances: a timed wait expires
-                tid = timed[0]
+                # virtual time advances to the earliest deadline: a timed wait expires / a sleeper wakes up
+                tid = min(timed, key=lambda k: (self.threads[k].get("deadline", self.now), k))
+                self.now = max(self.now, self.threads[tid].get("deadline", self.now))
+                self.threads[tid]["expired"] = self.threads[tid]["state"] == "T"
                 self.threads[tid]["state"] = "R"
-                self.threads[tid]["expired"] = True
                 enabled = [tid]
             elif all(t["state"] == "F" for t in self.threads.values()):
                 return
@@ -88,6 +90,13 @@ class Scheduler:
                 self.threads[me]["sem"].acquire()
                 if self.deadlock is not None:
                     raise Abort()
+
+    def sleep(self, me: int, seconds: float) -> None:
+        """A controlled thread sleeps for `seconds` of virtual time (e.g. a consumer that pauses)."""
+        thread = self.threads[me]
+        thread["state"], thread["on"], thread["deadline"] = "Z", "sleep", self.now + max(0.0, seconds)
+        self.switch(me)
+        thread["on"] = None
 
     def wake_waiters(self, obj) -> None:
         for thread in self.threads.values():
@@ -215,6 +224,7 @@ def install(lazy_pool_module, get_sched):
                 thread = sched.threads[me]
                 thread["state"] = "T" if timeout is not None else "B"
                 thread["on"] = self
+                thread["deadline"] = sched.now + (timeout or 0.0)
                 thread.pop("expired", None)
                 sched.switch(me)
                 if thread.pop("expired", False) and not self.items:
@@ -231,9 +241,12 @@ def install(lazy_pool_module, get_sched):
         def task_done(self) -> None:
             pass
 
-    def controlled_sleep(_seconds: float = 0.0) -> None:
+    def controlled_sleep(seconds: float = 0.0) -> None:
         sched = get_sched()
-        sched.switch(sched.me())
+        if seconds and seconds > 0:
+            sched.sleep(sched.me(), seconds)
+        else:
+            sched.switch(sched.me())
 
     def start(self) -> None:
         sched = get_sched()
@@ -265,8 +278,9 @@ def install(lazy_pool_module, get_sched):
 
     lazy_pool_module.queue = types.SimpleNamespace(Queue=ControlledQueue, Empty=Empty, Full=Full,
                                                    SimpleQueue=ControlledQueue, LifoQueue=None)
-    lazy_pool_module.time = types.SimpleNamespace(sleep=controlled_sleep, time=lambda: 0.0,
-                                                  monotonic=lambda: 0.0, perf_counter=lambda: 0.0)
+    lazy_pool_module.time = types.SimpleNamespace(sleep=controlled_sleep, time=lambda: get_sched().now,
+                                                  monotonic=lambda: get_sched().now,
+                                                  perf_counter=lambda: get_sched().now)
     lazy_pool_module.Collector.start = start
     lazy_pool_module.Collector.run = run
 
